@@ -46,6 +46,7 @@ var c01Kinds = []c01Kind{
 	{T: decl.TFloat32, Vals: []string{"0.1", "1.00000005960464478", "16777217.000000001"}},
 	{T: decl.TPInts, Vals: []string{"3", "-4"}},
 	{T: decl.TCSV, Vals: []string{"a,b", "c"}},
+	{T: decl.TSink, Vals: []string{"val", "x"}}, // an Unmarshaler with a value receiver
 	{T: decl.TFuncS, Vals: []string{"val"}, Default: []string{"dflt"}}, // a callback with a default: called with it only when the option does not occur
 }
 
@@ -285,7 +286,7 @@ func init() {
 		Level:      "model_checking",
 		ShardDepth: 2,
 		Body:       body,
-		Rule: "option under test U of 26 kinds (a func(string) with a default tag, bool, []bool, string, int, uint8, float64, float32, Duration, *string, *int, []string, []int, []*int, map[string]string, map[string]int, " +
+		Rule: "option under test U of 27 kinds (an Unmarshaler with a value receiver, a func(string) with a default tag, bool, []bool, string, int, uint8, float64, float32, Duration, *string, *int, []string, []int, []*int, map[string]string, map[string]int, " +
 			"func(), func(string), func(int) error, Unmarshaler, *Unmarshaler, []Unmarshaler, a bool-kinded Unmarshaler, a slice-kinded Unmarshaler, optional-argument string/int) x 11 placements (parser, subgroup, namespaced, doubly namespaced, command, " +
 			"command's namespaced group, sub-subcommand, shadowing an ancestor's option at two depths, shadowing through an identical namespaced long name, plain group nested in a namespaced group) x namespace delimiter {., ::} x short name {u, é} x {struct tags, AddGroup/AddCommand API, API with the parser's groups added after the commands and after two parses that selected them} " +
 			"x {None, HelpFlag|PassDoubleDash}; every sequence of <= 3 (quick) / <= 4 (thorough) units over all spellings of U with 1-3 values and with the empty attached value (--name= or -u=), bystander options, command words and a plain word, plus beyond that bound every unit repeated 5, 8, 9, 10, 16, 17 and 33 times; " +
